@@ -83,6 +83,8 @@ def run(ctx):
     from .plumbing import check_positional_crossing as _cross
     ctx.attempt(_cross, ctx, rep, 'R15.15', ['petl.io'])
     rep.held('R15.15', ('petl.io', '*'), 'positional arguments arrive under their own names', '', None)
+    rep.rule('R15.16', 'what was written is read back whatever its truth value: the readers of petl.io.json take a cell from the parsed record without testing it for truth (`o.get(f) or missing` turns 0, \'\', False and [] into missing), and MemorySource.open decides "nothing supplied" by identity with None, never by the truth of the payload (a header-less write of a table without rows is the empty string, and reads back as the empty table)')
+    ctx.attempt(r1516, ctx, rep)
     rep.rule('R15.13', 'a reader hands on every record as parsed: it does not edit the cells of the row it has read')
     ctx.attempt(r1513, ctx, rep)
     rep.rule('R15.11', 'a writer opens its target on every path to a normal exit: writing a table without rows (or without a header) still creates / truncates the target')
@@ -909,6 +911,94 @@ def r1513(ctx, rep):
             rep.held('R15.13', fn, 'records handed on as parsed', '', fn.node)
     if n < 3:
         raise AnalysisError('anchor vanished: reader iterators')
+
+
+# ------------------------------------------------------------------------ R15.16
+def _truth_tested(fn_node, is_subject):
+    """Nodes of the function where an expression selected by is_subject(expr) is used for its truth value: operand of
+    and / or / not, test of if / while / conditional expression / comprehension filter / assert."""
+    out = []
+    for x in own_nodes(fn_node):
+        tests = []
+        if isinstance(x, ast.BoolOp):
+            tests = x.values[:-1] if isinstance(x.op, ast.Or) else x.values[:-1]
+        elif isinstance(x, ast.UnaryOp) and isinstance(x.op, ast.Not):
+            tests = [x.operand]
+        elif isinstance(x, (ast.If, ast.While, ast.IfExp, ast.Assert)):
+            tests = [x.test]
+        elif isinstance(x, ast.comprehension):
+            tests = list(x.ifs)
+        for t in tests:
+            # the truth of `a and b` / `not a` is the truth of their operands: those are visited on their own
+            if is_subject(t):
+                out.append((x, t))
+    return out
+
+
+def r1516(ctx, rep):
+    # (a) cells of a parsed JSON record
+    n = 0
+    for fn in ctx.functions(['petl.io.json']):
+        if not any(isinstance(x, (ast.Yield, ast.YieldFrom)) for x in own_nodes(fn.node)):
+            continue
+        records = set()
+        for x in own_nodes(fn.node):
+            if isinstance(x, (ast.For, ast.comprehension)):
+                records |= {y.id for y in ast.walk(x.target) if isinstance(y, ast.Name)}
+        aliases = set()
+        for x in own_nodes(fn.node):
+            if isinstance(x, ast.Assign) and len(x.targets) == 1 and isinstance(x.targets[0], ast.Name) and _cell_read(x.value, records):
+                aliases.add(x.targets[0].id)
+
+        def subject(t):
+            return _cell_read(t, records) or isinstance(t, ast.Name) and t.id in aliases
+        bad = _truth_tested(fn.node, subject)
+        reads = [x for x in own_nodes(fn.node) if _cell_read(x, records)]
+        if not reads:
+            continue
+        n += 1
+        for x, t in bad:
+            rep.violated('R15.16', fn, norm(x)[:60], 'the cell `%s` taken from the parsed record is tested for truth: a cell that was '
+                         'written as 0, 0.0, False, \'\' or [] is read back as something else (the missing value), so '
+                         'fromjson(tojson(t)) differs from t' % norm(t)[:40], x)
+        if not bad:
+            rep.held('R15.16', fn, 'cells of the parsed record are handed on untested (%d reads)' % len(reads), '', fn.node)
+    ctx.floor('json_cell_readers', n, 1)
+    # (b) the payload of MemorySource
+    fn = ctx.project.need_fn('petl.io.sources:MemorySource.open')
+    init = ctx.project.need_fn('petl.io.sources:MemorySource.__init__')
+    payload = set()
+    for x in own_nodes(init.node):
+        if isinstance(x, ast.Assign) and isinstance(x.value, ast.Name) and x.value.id in init.params:
+            payload |= {norm(t) for t in x.targets if isinstance(t, ast.Attribute)}
+    if not payload:
+        raise AnalysisError('anchor vanished: MemorySource.__init__ stores no payload')
+    uses = [x for x in own_nodes(fn.node) if isinstance(x, ast.Attribute) and norm(x) in payload]
+    if not uses:
+        raise AnalysisError('anchor vanished: MemorySource.open does not read the payload')
+    aliases = {x.targets[0].id for x in own_nodes(fn.node) if isinstance(x, ast.Assign) and len(x.targets) == 1 and
+               isinstance(x.targets[0], ast.Name) and isinstance(x.value, ast.Attribute) and norm(x.value) in payload}
+    bad = _truth_tested(fn.node, lambda t: isinstance(t, ast.Attribute) and norm(t) in payload or
+                        isinstance(t, ast.Name) and t.id in aliases or
+                        isinstance(t, ast.Call) and norm(t.func) == 'len' and len(t.args) == 1 and
+                        (norm(t.args[0]) in payload or isinstance(t.args[0], ast.Name) and t.args[0].id in aliases))
+    for x, t in bad:
+        rep.violated('R15.16', fn, norm(x)[:60], 'whether a string was supplied is decided by the truth of the payload `%s`: '
+                     'the empty string (what a header-less write of a table without rows produces) is taken for "no data" '
+                     'and the read raises instead of returning the empty table' % norm(t)[:40], x)
+    if not bad:
+        rep.held('R15.16', fn, 'payload %s tested by identity only' % ', '.join(sorted(payload)), '', fn.node)
+
+
+def _cell_read(e, records):
+    """o.get(f[, d]) / o[f] on a loop variable o of the reader."""
+    if isinstance(e, ast.Call) and isinstance(e.func, ast.Attribute) and e.func.attr == 'get' and \
+            isinstance(e.func.value, ast.Name) and e.func.value.id in records and 1 <= len(e.args) <= 2:
+        return True
+    if isinstance(e, ast.Subscript) and isinstance(e.ctx, ast.Load) and isinstance(e.value, ast.Name) and e.value.id in records \
+            and not isinstance(e.slice, ast.Slice):
+        return True
+    return False
 
 
 # ------------------------------------------------------------------------ R15.14
